@@ -20,6 +20,7 @@ EXPLANATION = (
     "[0.0, 1.0] exactly when some (parent, value) pair of the row is one of its registered pairs and [1.0, 0.0] otherwise, over all combinations of "
     "parent values; BN5 formula_to_bn converts every clause of formula.enum_clauses() once, with its enumeration index as the choice node's number."
     " Added after seed round 6: BN6 the parent list of the choice-node Factor is an order-preserving image of the sequence the key tuples are zipped with."
+    " Added after seed round 7: BN7 OrCPT.__add__ concatenates the parent-value lists of both operands."
 )
 TECHNIQUE = "static analysis: decision tables (truth table of the body evaluator, CPT rows), index-pairing patterns, sibling agreement of the three clause branches"
 LEVEL_TEXT = EXPLANATION
